@@ -1,6 +1,7 @@
 import Pike.Driver.Wire
 import Pike.Driver.Loc
 import Pike.Model.Config
+import Pike.Model.Fields
 namespace Pike.Driver
 open Pike Wire Config
 
@@ -12,6 +13,15 @@ def judgeConfig (fields : List String) : String :=
     -- the running instance's change callback has read the configuration that was saved last
     if res = "ok" then "ok watch 1" else if res = "no-events" then "ok watch-unavailable 0"
     else s!"ok watch 1 TRIP differs_from_fresh:watch:{res}"
+  | ["field", kind, v, "=>", acc] =>
+    match unhex v with
+    | none => "BADLINE config field"
+    | some v =>
+      match Fields.fieldOK kind v with
+      | none => "BADLINE config field kind"
+      | some ok =>
+        let trip := if acc = "1" ∧ !ok then s!" TRIP accepted_malformed:{kind}" else ""
+        if (acc = "1") = ok then s!"ok field-{kind}-{acc} 1{trip}" else s!"DIFF config field {kind} value={str v} model={ok} impl={acc}{trip}"
   | [_i, defect, sok, comp, caches, ups, locs, srvs, "=>", cls, probes, rt] =>
     let locsP : Option (List Loc) := if locs = "-" then some [] else
       (locs.splitOn ";").mapM fun e => match e.splitOn "|" with
